@@ -164,3 +164,87 @@ pub fn write_report(prop: &dyn Prop, evaluated: &[Evaluated], failures: &[Oracle
     });
     std::fs::write(format!("{out_dir}/{id}.stats.json"), serde_json::to_string_pretty(&stats).unwrap()).unwrap();
 }
+
+use std::io::BufRead;
+
+/// Command line shared by every group binary:
+///   <bin> run  <PROP> --tier quick|thorough --seed N --out DIR [--corpus FILE]
+///   <bin> eval <PROP> --out DIR < requests     (replay / corpus mode: no generation)
+pub fn main_for(props: Vec<Box<dyn Prop>>) {
+    let args: Vec<String> = std::env::args().collect();
+    if args.len() < 3 {
+        eprintln!("usage: tfharness run|eval <PROP> [--tier T] [--seed N] [--out DIR] [--corpus FILE]");
+        std::process::exit(2);
+    }
+    let mode = args[1].as_str();
+    let Some(prop) = props.into_iter().find(|p| p.id() == args[2]) else {
+        eprintln!("unknown property {} for this binary", args[2]);
+        std::process::exit(2);
+    };
+    let mut tier = Tier::Quick;
+    let mut seed: u64 = 0;
+    let mut out = "out".to_string();
+    let mut corpus: Option<String> = None;
+    let mut i = 3;
+    while i < args.len() {
+        match args[i].as_str() {
+            "--tier" => {
+                tier = if args[i + 1] == "thorough" { Tier::Thorough } else { Tier::Quick };
+                i += 2;
+            }
+            "--seed" => {
+                seed = args[i + 1].parse::<i64>().map(|x| x as u64).unwrap_or(0);
+                i += 2;
+            }
+            "--out" => {
+                out = args[i + 1].clone();
+                i += 2;
+            }
+            "--corpus" => {
+                corpus = Some(args[i + 1].clone());
+                i += 2;
+            }
+            other => {
+                eprintln!("unknown argument {other}");
+                std::process::exit(2);
+            }
+        }
+    }
+    install_quiet_panic_hook();
+    let mut cases: Vec<Case> = vec![];
+    let read_lines = |r: &mut dyn BufRead, tag: &str, cases: &mut Vec<Case>| {
+        for line in r.lines() {
+            let line = line.unwrap();
+            let line = line.split('\t').next().unwrap_or("").trim();
+            if line.is_empty() || line.starts_with('#') {
+                continue;
+            }
+            match Sexp::parse(line) {
+                Some(s) => cases.push(Case::new(s, &[tag])),
+                None => eprintln!("skipping unparsable request: {line}"),
+            }
+        }
+    };
+    if let Some(c) = &corpus {
+        if let Ok(f) = std::fs::File::open(c) {
+            read_lines(&mut std::io::BufReader::new(f), "corpus", &mut cases);
+        }
+    }
+    match mode {
+        "run" => {
+            let mut rng = Rng::new(seed);
+            cases.extend(prop.generate(tier, &mut rng));
+        }
+        "eval" => {
+            let stdin = std::io::stdin();
+            read_lines(&mut stdin.lock(), "replay", &mut cases);
+        }
+        _ => {
+            eprintln!("unknown mode {mode}");
+            std::process::exit(2);
+        }
+    }
+    let evaluated = evaluate(prop.as_ref(), cases);
+    let failures = prop.oracle(&evaluated);
+    write_report(prop.as_ref(), &evaluated, &failures, &out, seed, tier);
+}
